@@ -33,6 +33,7 @@ struct Ev<'a> {
     maxmag: f64,
     cond_true: u32,
     cond_false: u32,
+    known_class: bool,
 }
 
 impl Ev<'_> {
@@ -136,6 +137,11 @@ impl Ev<'_> {
                                 _ => {
                                     if matches!(b, TV::I(0)) {
                                         TV::Err
+                                    } else if matches!(b, TV::I(g) if g.checked_mul(g).map(|q| q > i32::MAX as i64).unwrap_or(true)) {
+                                        // known finding K1 (run-time variant): the quotient rule squares the
+                                        // divisor; an integer divisor of 46341 or more overflows i32 there
+                                        self.known_class = true;
+                                        TV::Unsafe
                                     } else if y.v.abs() > MARGIN {
                                         self.num(x.div(&y))
                                     } else {
@@ -262,7 +268,14 @@ fn in_known_class(t: &Tree, table: &Table) -> bool {
     }
 }
 
-const KNOWN_WITNESSES: &[(&str, usize, f64, f64)] = &[("x/2", 0, 1.5, 0.5), ("(2*x)/3", 0, 1.5, 2.0 / 3.0), ("x/(1+2)", 0, 1.5, 1.0 / 3.0), ("(x+1)/2", 0, 1.5, 0.5)];
+const KNOWN_WITNESSES: &[(&str, usize, f64, f64)] = &[
+    ("x/2", 0, 1.5, 0.5),
+    ("(2*x)/3", 0, 1.5, 2.0 / 3.0),
+    ("x/(1+2)", 0, 1.5, 1.0 / 3.0),
+    ("(x+1)/2", 0, 1.5, 0.5),
+    // run-time variant: the integer divisor is selected by a condition, the quotient rule squares it
+    ("x/(65536 if x>0 else 2.0)", 0, 1.5, 1.0 / 65536.0),
+];
 
 fn to_f(v: &Val<i32, f64>) -> Option<f64> {
     match v {
@@ -324,11 +337,15 @@ fn case(rng: &mut Rng, table: &Table, st: &mut Stats) {
         let p: Vec<f64> = (0..vars.len()).map(|_| if rng.chance(1, 5) { -(0.2 + 1.5 * rng.unit()) } else { 0.1 + 2.4 * rng.unit() }).collect();
         let at = |p: &[f64]| {
             let vals: Vec<Dual<f64>> = p.iter().enumerate().map(|(i, x)| Dual::var(*x, i == wrt)).collect();
-            let mut ev = Ev { table, vars: &vars, vals: &vals, maxmag: 0.0, cond_true: 0, cond_false: 0 };
+            let mut ev = Ev { table, vars: &vars, vals: &vals, maxmag: 0.0, cond_true: 0, cond_false: 0, known_class: false };
             let r = ev.eval(&tree);
-            (r, ev.maxmag, ev.cond_true, ev.cond_false)
+            (r, ev.maxmag, ev.cond_true, ev.cond_false, ev.known_class)
         };
-        let (r, mag, ct, cf) = at(&p);
+        let (r, mag, ct, cf, known) = at(&p);
+        if known {
+            st.bump("points_in_known_finding_class_K1_runtime_variant_not_judged");
+            continue;
+        }
         st.bump("points_sampled");
         let want = match r {
             TV::F(d) => d,
